@@ -384,7 +384,7 @@ grammar = Grammar(
     linenum         = ~r"[0-9]+"
     literal         = num_literal
     hex_literal     = ~r"& *H *[0-9A-F][0-9A-F]?[0-9A-F]?[0-9A-F]?[0-9A-F]?[0-9A-F]?"
-    num_literal     = ~r"([\+\- ]*(\d*\.\d*)( *(?!ELSE)E *[\+\-]? *\d*))|[\+\- ]*(\d*\.\d*)|[\+\- ]*(\d+( *(?!ELSE)E *[\+\-]? *\d*))|[\+\- ]*(\d+)"
+    num_literal     = ~r" *[\+\-]? *(\d+\.?\d*|\.\d+)( *(?!ELSE)E *[\+\-]? *\d+)?"
     int_literal     = ~r"(\d+)"
     int_hex_literal = ~r"& *H *[0-9A-F][0-9A-F]?[0-9A-F]?[0-9A-F]?[0-9A-F]?[0-9A-F]?"
     space           = ~r" "
